@@ -91,7 +91,7 @@ func (i *ident) tlsCert(chain ...*ident) tls.Certificate {
 
 type pki struct {
 	ca, server, valid, wrongName, selfSigned, foreignCA, foreign, expired, inter, underInter, neutralInter, validUnderNeutral *ident
-	dir                                                                                                                    string
+	dir                                                                                                                       string
 }
 
 const ruleName = "trusted-client"
@@ -146,11 +146,11 @@ func freePort() int {
 }
 
 type sut struct {
-	srv            *exserver.Server
-	plain, secure  int
-	whoami         sync.Map // identity -> count of executed WHOAMI commands
-	executed       int64
-	pw             string
+	srv           *exserver.Server
+	plain, secure int
+	whoami        sync.Map // identity -> count of executed WHOAMI commands
+	executed      int64
+	pw            string
 }
 
 // newSUT: mode "plain" | "tls" | "both"; rule: require the common name; pw: require a password
@@ -278,6 +278,46 @@ func countFDs() int {
 	return len(es)
 }
 
+// fdTargets lists what the open descriptors point to (diagnostics for a leak report)
+func fdTargets() map[string]string {
+	out := map[string]string{}
+	es, _ := os.ReadDir("/proc/self/fd")
+	for _, e := range es {
+		t, _ := os.Readlink("/proc/self/fd/" + e.Name())
+		out[e.Name()] = t
+	}
+	return out
+}
+
+// leakedSockets: sockets open now that were not open at the baseline (other descriptor kinds come and go with the runtime)
+func leakedSockets(base map[string]string) []string {
+	had := map[string]bool{}
+	for _, v := range base {
+		had[v] = true
+	}
+	out := []string{}
+	for k, v := range fdTargets() {
+		if strings.HasPrefix(v, "socket:") && !had[v] {
+			out = append(out, k+"->"+v)
+		}
+	}
+	return out
+}
+
+// warmUp creates the runtime's network poller descriptors before any baseline is taken
+func warmUp() {
+	l, err := net.Listen("tcp", "127.0.0.1:0")
+	if err != nil {
+		return
+	}
+	c, err := net.Dial("tcp", l.Addr().String())
+	if err == nil {
+		c.Close()
+	}
+	l.Close()
+	time.Sleep(10 * time.Millisecond)
+}
+
 func settle(pred func() bool, d time.Duration) bool {
 	deadline := time.Now().Add(d)
 	for {
@@ -339,19 +379,33 @@ func modeTLSGate(args []string) {
 					id := ""
 					switch cred {
 					case "selfsigned":
-						c := p.selfSigned.tlsCert(); cert = &c; id = ruleName
+						c := p.selfSigned.tlsCert()
+						cert = &c
+						id = ruleName
 					case "foreignca":
-						c := p.foreign.tlsCert(p.foreignCA); cert = &c; id = ruleName
+						c := p.foreign.tlsCert(p.foreignCA)
+						cert = &c
+						id = ruleName
 					case "expired":
-						c := p.expired.tlsCert(); cert = &c; id = ruleName
+						c := p.expired.tlsCert()
+						cert = &c
+						id = ruleName
 					case "wrongname":
-						c := p.wrongName.tlsCert(); cert = &c; id = "mallory"
+						c := p.wrongName.tlsCert()
+						cert = &c
+						id = "mallory"
 					case "intermediate-name":
-						c := p.underInter.tlsCert(p.inter); cert = &c; id = "mallory-sub"
+						c := p.underInter.tlsCert(p.inter)
+						cert = &c
+						id = "mallory-sub"
 					case "valid":
-						c := p.valid.tlsCert(); cert = &c; id = ruleName
+						c := p.valid.tlsCert()
+						cert = &c
+						id = ruleName
 					case "valid-under-neutral-intermediate":
-						c := p.validUnderNeutral.tlsCert(p.neutralInter); cert = &c; id = ruleName
+						c := p.validUnderNeutral.tlsCert(p.neutralInter)
+						cert = &c
+						id = ruleName
 					}
 					before := int64(0)
 					if v, ok := s.whoami.Load(idOr(id, cred)); ok {
@@ -570,6 +624,7 @@ func modeChurn(args []string) {
 	if len(args) > 1 {
 		seed, _ = strconv.Atoi(args[1])
 	}
+	warmUp()
 	p := newPKI()
 	defer p.cleanup()
 	modes := []string{"fin-boundary", "fin-mid", "rst", "quit", "malformed", "stops-reading", "tls-polite", "tls-rst", "tls-handshake-fail", "tls-rejected-cert", "tls-stall"}
@@ -577,7 +632,8 @@ func modeChurn(args []string) {
 	runBatch := func(name string, pick func(i int) string, n int, inflight int, stopWithOpen bool) {
 		s := newSUT(p, "both", true, "")
 		runtime.GC()
-		g0, f0 := runtime.NumGoroutine(), countFDs()
+		g0 := runtime.NumGoroutine()
+		fd0 := fdTargets()
 		if err := s.srv.Start(); err != nil {
 			emit(churnResult{Mode: name, Note: "start: " + err.Error()})
 			return
@@ -589,7 +645,9 @@ func modeChurn(args []string) {
 		var mu sync.Mutex
 		for i := 0; i < n; i++ {
 			m := pick(i)
-			mu.Lock(); res.Counts[m]++; mu.Unlock()
+			mu.Lock()
+			res.Counts[m]++
+			mu.Unlock()
 			sem <- struct{}{}
 			wg.Add(1)
 			go func(i int, m string) {
@@ -628,9 +686,9 @@ func modeChurn(args []string) {
 				c.Close()
 			}
 		}
-		settle(func() bool { runtime.GC(); return runtime.NumGoroutine() <= g0 && countFDs() <= f0 }, 4*time.Second)
+		settle(func() bool { runtime.GC(); return runtime.NumGoroutine() <= g0 && len(leakedSockets(fd0)) == 0 }, 4*time.Second)
 		res.GoroutineDelta = runtime.NumGoroutine() - g0
-		res.FDDelta = countFDs() - f0
+		res.FDDelta = len(leakedSockets(fd0))
 		emit(res)
 	}
 	per := cycles / len(modes)
@@ -659,6 +717,7 @@ type lifeObs struct {
 
 // ops: S start, X stop, R restart, c connect a plain client (idle), t connect a TLS client (idle), d disconnect the oldest client
 func modeLife(args []string) {
+	warmUp()
 	p := newPKI()
 	defer p.cleanup()
 	stdinLines(func(line string) {
@@ -667,9 +726,25 @@ func modeLife(args []string) {
 			return
 		}
 		cfg, seq := f[0], f[1]
+		for attempt := 0; ; attempt++ {
+			o, portRace := runLife(p, cfg, seq)
+			if portRace && attempt < 4 {
+				continue
+			}
+			emit(o)
+			return
+		}
+	})
+}
+
+// runLife plays one sequence; portRace: Start failed because a port chosen as free was taken meanwhile by another process
+func runLife(p *pki, cfg, seq string) (lifeObs, bool) {
+	{
+		portRace := false
 		s := newSUT(p, cfg, cfg != "plain", "")
 		runtime.GC()
-		g0, f0 := runtime.NumGoroutine(), countFDs()
+		g0 := runtime.NumGoroutine()
+		fd0 := fdTargets()
 		o := lifeObs{Seq: seq, Config: cfg, Problems: []string{}}
 		running := false
 		type cl struct {
@@ -695,7 +770,15 @@ func modeLife(args []string) {
 				if port == 0 {
 					continue
 				}
-				l, err := net.Listen("tcp", addr(port))
+				// another process probing for a free port may hold this one for an instant: retry briefly
+				var l net.Listener
+				var err error
+				for try := 0; try < 40; try++ {
+					if l, err = net.Listen("tcp", addr(port)); err == nil {
+						break
+					}
+					time.Sleep(25 * time.Millisecond)
+				}
 				if err != nil {
 					o.Problems = append(o.Problems, fmt.Sprintf("%s: port %d cannot be bound again: %v", tag, port, err))
 				} else {
@@ -722,6 +805,9 @@ func modeLife(args []string) {
 			switch op {
 			case 'S':
 				err := s.srv.Start()
+				if err != nil && strings.Contains(err.Error(), "address already in use") {
+					portRace = true
+				}
 				o.Steps = append(o.Steps, fmt.Sprintf("S:%v", err == nil))
 				if err == nil {
 					running = true
@@ -740,6 +826,9 @@ func modeLife(args []string) {
 				old := clients
 				clients = nil
 				err := s.srv.Restart()
+				if err != nil && strings.Contains(err.Error(), "address already in use") {
+					portRace = true
+				}
 				o.Steps = append(o.Steps, fmt.Sprintf("R:%v", err == nil))
 				for _, c := range old {
 					c.c.SetDeadline(time.Now().Add(ioTimeout))
@@ -815,10 +904,13 @@ func modeLife(args []string) {
 		for _, c := range clients {
 			c.c.Close()
 		}
-		settle(func() bool { runtime.GC(); return countFDs() <= f0 }, 2*time.Second)
-		if d := countFDs() - f0; d > 0 {
-			o.Problems = append(o.Problems, fmt.Sprintf("%d descriptors remain open after the last Stop", d))
+		settle(func() bool { runtime.GC(); return len(leakedSockets(fd0)) == 0 }, 3*time.Second)
+		if leaked := leakedSockets(fd0); len(leaked) > 0 {
+			o.Problems = append(o.Problems, fmt.Sprintf("%d sockets remain open after the last Stop: %v", len(leaked), leaked))
 		}
-		emit(o)
-	})
+		if portRace {
+			s.srv.Stop()
+		}
+		return o, portRace
+	}
 }
